@@ -24,6 +24,49 @@ CLAIMED = {
         "cap, ignored namespaces, inverse paths, all switches). The passage of figures from the profile through the merge stages is "
         "modelled and validated; theorems about it are in Props/C01b.lean when listed in the evidence. NONLITERAL merges are known findings.",
    technique="Lean 4 refinement proof (dictionary passes vs declarative counts) + differential correspondence + Spec oracle", design="5/C01"),
+ "C02": dict(
+   text="Proof: the threshold test is regenerated from the AST and proved to be n/N >= a/b in exact arithmetic (boundary kept, below dropped, "
+        "0 keeps all, 1 keeps universal); candidates are exactly the profile entries that pass it (which are the declarative counts by R1); "
+        "the two merge stages neither invent nor lose a constraint key and never yield two constraints for one key (for every input list "
+        "and configuration). The non-literal 'iff' is proved in the form the code realises (some node kind passes) and refuted in the "
+        "property's form by a kernel-checked witness (finding F-C02-1). Tie: ordered correspondence on every k/n boundary. Search: key set and "
+        "shape set of the implementation against Spec.expectedKeys evaluated in Lean.",
+   note="Trusts Lean's kernel, extract.py, the ShExC parser. Modelled: merge stages (hand-written, validated by correspondence). Findings "
+        "F-C02-1 (kinds thresholded separately), F-C02-2 (reference to a removed empty shape dropped).",
+   technique="Lean 4 proofs over AST-generated threshold test + key-set invariants of the merge stages + correspondence + Lean Spec oracle", design="5/C02"),
+ "C12": dict(
+   text="Proof: the profile does not depend on the threshold (rfl); for t1 <= t2 the candidates at t2 are the candidates at t1 filtered - same "
+        "order, same figures; constraint keys after the merge stages are monotone; at 0 every entry is a candidate, at 1 only entries of all "
+        "instances. Tie: ordered correspondence at every threshold of the grid. Search: inclusions of keys/shapes/figures between fresh "
+        "implementation runs for all ordered threshold pairs, endpoints against the Lean Spec keys.",
+   note="Trusts Lean's kernel, extract.py (threshold operator), parser. Shape-level monotonicity through the removal of empty shapes is validated, "
+        "not proved (finding F-C02-2 lives there).",
+   technique="Lean 4 proof (antitone filter, key-set invariants) + metamorphic search over threshold pairs", design="5/C12"),
+ "C13": dict(
+   text="Proof: the relaxation pass is 'sort, then rewrite each statement alone' and never touches property, types, direction, count; run-level "
+        "equations: disable_comments = erase comments; disable_exact_cardinality = map {k>1}->+ ; all_instances_are_compliant_mode = map relax "
+        "(identity at 100 %, else own figure as comment and ?/*); '?' only from allow_opt and cardinality exactly 1; mode off changes no "
+        "cardinality. Presentation options are not inputs of the model at all; the correspondence varies them. Search: pairs of fresh runs "
+        "differing in one of 10 options; every ratio text against the exact n/N; file vs string on a 9000-line result.",
+   note="Trusts Lean's kernel, extract.py (relax/generalize/cardinality_representation regenerated), parser. Float formatting is validated "
+        "against exact rationals, not modelled. Findings F-C13-1 (decimals=0 truncates; pinned by a golden file), F-C05-2.",
+   technique="Lean 4 proofs of run-level option equations + one-factor metamorphic search", design="5/C13"),
+ "C14": dict(
+   text="Proof (counting level): selection, instance counts and every outgoing count are identical with and without inverse_paths; no incoming "
+        "feature exists without the option; the incoming count of a node equals its outgoing count in the graph with the non-literal triples "
+        "reversed (IRI subjects). Tie: ordered correspondence with the option on and off. Search: three fresh runs per graph (G+inverse, G, "
+        "reverse(G)) and every incoming figure against the Lean Spec.",
+   note="Trusts Lean's kernel, parser. The passage from counts to constraint lists is the shared merge-stage model (validated by correspondence); "
+        "blank-node subjects are compared through the Spec only.",
+   technique="Lean 4 proof (counts of reversed graph) + metamorphic search + Lean Spec oracle", design="5/C14"),
+ "C16": dict(
+   text="Proof: namespaces_to_ignore is exactly the feature pass on the filtered document while the selection reads the full graph; filter = "
+        "direct-child test, union over nested namespaces, order-irrelevant, deeper predicates kept; instances_cap=k selects exactly what no cap "
+        "selects on the document without the (k+1)-th.. instantiation triples of each class, including the early stop of the target-classes "
+        "variant; a cap no class reaches changes nothing; figures are exact for any selection (R1). Tie: ordered correspondence with caps and "
+        "namespace sets varied. Search: option vs filtered document; caps 1..max+1; capped figures against the Lean Spec.",
+   note="Trusts Lean's kernel, parser. Cap theorem proved for pairwise distinct target classes (hypothesis unused by the proof but kept).",
+   technique="Lean 4 proof (fold invariant with pigeonhole for the early stop) + metamorphic search + Lean Spec oracle", design="5/C16"),
 }
 PENDING_REASON = "check not built yet (work in progress; see DESIGN.md section 9 for the build order)"
 
